@@ -265,3 +265,48 @@ theorem konig_cover (g : Graph) (nU nV : Nat) (matchV : List (Option Nat)) (cU c
       | some b => rw [hq] at hvis; simp at hvis; simp [hvis]
 
 end RenoVerif.Cover
+
+namespace RenoVerif.Cover
+
+/-! ### consequence for operator bonds: a certified minimum cover is no larger than either side of the incidence matrix -/
+
+theorem countTrue_replicate (n : Nat) : countTrue (List.replicate n true) = n := by
+  unfold countTrue trueIdx
+  rw [List.filter_eq_self.mpr]
+  · simp
+  · intro i hi
+    simp only [List.length_replicate, List.mem_range] at hi
+    simp [List.getD_eq_getElem?_getD, hi]
+
+theorem countTrue_nil : countTrue [] = 0 := by simp [countTrue, trueIdx]
+
+theorem edge_u_lt (g : Graph) (e : Nat × Nat) (he : e ∈ edgesOf g) : e.1 < g.length := by
+  unfold edgesOf at he
+  simp only [List.mem_flatMap, List.mem_map] at he
+  obtain ⟨⟨adj, u⟩, hmem, v, _, rfl⟩ := he
+  have := List.mem_zipIdx hmem
+  simp at this
+  omega
+
+/-- **the bond dimension never exceeds the number of distinct left partial terms** (rows of the incidence matrix): a
+    certified minimum cover is no larger than the set of all U vertices -/
+theorem minCover_le_rows (g : Graph) (cU cV : List Bool) (m : List (Option Nat)) (h : checkCert g cU cV m = true) :
+    countTrue cU + countTrue cV ≤ g.length := by
+  have hmin := (checkCert_sound g cU cV m h).2.2.2.1 (List.replicate g.length true) []
+    (by
+      intro e he
+      have hu := edge_u_lt g e he
+      simp [coversEdge, List.getD_eq_getElem?_getD, hu])
+  rwa [countTrue_replicate, countTrue_nil, Nat.add_zero] at hmin
+
+/-- … nor the number of distinct right partial terms (columns) -/
+theorem minCover_le_cols (g : Graph) (cU cV : List Bool) (m : List (Option Nat)) (h : checkCert g cU cV m = true)
+    (nV : Nat) (hV : ∀ e ∈ edgesOf g, e.2 < nV) : countTrue cU + countTrue cV ≤ nV := by
+  have hmin := (checkCert_sound g cU cV m h).2.2.2.1 [] (List.replicate nV true)
+    (by
+      intro e he
+      have hv := hV e he
+      simp [coversEdge, List.getD_eq_getElem?_getD, hv])
+  rwa [countTrue_replicate, countTrue_nil, Nat.zero_add] at hmin
+
+end RenoVerif.Cover
